@@ -42,7 +42,24 @@ def finish():
     return dict(_counts)
 
 
+KNOWN_DEEP = 'long-chains-through-containers-hit-the-recursion-limit'
+
+
+def gen_deep(rng):
+    """an acyclic chain that passes through a container at every hop: k0: [!xref k1], k1: [!xref k2], ..., kn: [1]"""
+    n = rng.choice([20, 40, 60, 120, 200])
+    order = list(range(n))
+    if rng.random() < 0.5:
+        order.reverse()
+    lines = [f'k{i}: [!xref "k{i + 1}"]' for i in order]
+    lines.insert(rng.randrange(len(lines) + 1), f'k{n}: [1]')
+    refs = [{'loc': (f'k{i}', 0), 'doc': 0, 'in_call': False, 'target': f'k{i + 1}'} for i in range(n)]
+    return {'texts': ['\n'.join(lines) + '\n'], 'refs': refs, 'cycle': None, 'n_nodes': 3 * n + 3, 'two_sources': True, 'route': rng.choice(['config', 'ctx']), 'deep': n}
+
+
 def gen_case(rng, tier):
+    if rng.random() < 0.02:
+        return gen_deep(rng)
     n_base = rng.randrange(2, 6)
     serial = [0]
 
@@ -321,7 +338,9 @@ def run(case):
         if not expected_fail:
             missing = _dangling_terminals(case, plan)
             expected_fail = bool(missing)
-        if not expected_fail:
+        if not expected_fail and case.get('deep') and 'RecursionError' in util.exc_names(got[1]):
+            vio.append({'mech': KNOWN_DEEP, 'what': f'acyclic chain of {case["deep"]} references, each inside a list: {lib.describe(got)}'})
+        elif not expected_fail:
             vio.append({'mech': 'valid-graph-rejected', 'what': f'every reference of {refdesc} ends at an existing node but the build {lib.describe(got)}; texts={texts!r}'})
         elif lib.err_kind(got[1]) not in ('EvalError',):
             vio.append({'mech': 'wrong-error-for-bottom', 'what': f'dangling / cyclic reference must surface as EvalError, build {lib.describe(got)}; texts={texts!r}'})
